@@ -120,6 +120,17 @@ class GenericContextRegistry(
         super()._build_cache(loaded_files)
         self._caches[()] = self._cache
 
+    #: True while a context's redefinitions are written into its own, new overlay
+    _applying_redefinitions = False
+
+    def _clear_memos(self) -> None:
+        if self._applying_redefinitions:
+            # the overlay's memo tables were just created; the others do not see it
+            return
+        super()._clear_memos()
+        for cache in self._caches.values():
+            self._clear_memos_of(cache)
+
     def _switch_context_cache_and_units(self) -> None:
         """If any of the active contexts redefine units, create variant self._cache
         and self._units specific to the combination of active contexts.
@@ -150,12 +161,14 @@ class GenericContextRegistry(
 
         on_redefinition_backup = self._on_redefinition
         self._on_redefinition = "ignore"
+        self._applying_redefinitions = True
         try:
             for ctx in reversed(self._active_ctx.contexts):
                 for definition in ctx.redefinitions:
                     self._redefine(definition)
         finally:
             self._on_redefinition = on_redefinition_backup
+            self._applying_redefinitions = False
 
     def _redefine(self, definition: UnitDefinition) -> None:
         """Redefine a unit from a context"""
